@@ -127,7 +127,11 @@ func runMapOrder(run *ev.Run, base string) {
 		run.Harness = true
 		return
 	}
-	out, err := sh(root, filepath.Join(base, "maporder"), "/repo", ovDir, filepath.Join(root, "internal/order/vorder.go.txt"))
+	repo := os.Getenv("VERIF_REPO")
+	if repo == "" {
+		repo = "/repo"
+	}
+	out, err := sh(root, filepath.Join(base, "maporder"), repo, ovDir, filepath.Join(root, "internal/order/vorder.go.txt"))
 	if err != nil {
 		fmt.Fprintln(os.Stderr, "HARNESS-ERROR: maporder rewrite failed:", out)
 		run.Harness = true
